@@ -138,3 +138,20 @@ impl ReceiverSigner {
         ]
     }
 }
+
+/// Verification-only thin wrappers (no logic of their own) around the `pub(crate)` setters of
+/// [`Config`].  Compiled only with `--cfg gmsol_verif`.
+#[cfg(gmsol_verif)]
+pub mod verif_hooks_g1 {
+    use super::*;
+
+    /// Calls `Config::set_gt_factor`.
+    pub fn set_gt_factor(config: &mut Config, factor: u128) -> Result<u128> {
+        config.set_gt_factor(factor)
+    }
+
+    /// Calls `Config::set_buyback_factor`.
+    pub fn set_buyback_factor(config: &mut Config, factor: u128) -> Result<u128> {
+        config.set_buyback_factor(factor)
+    }
+}
